@@ -411,10 +411,22 @@ impl<'a> Sieve<'a> {
                         let ll = len - p - m;
                         while kp < ll {
                             // both kp+off1 and kp+off2 are in range
-                            *blk.get_unchecked_mut(kp + off1) += log;
-                            *blk.get_unchecked_mut(kp + off2) += log;
-                            *blk.get_unchecked_mut(kp + p + off1) += log;
-                            *blk.get_unchecked_mut(kp + p + off2) += log;
+                            {
+                                let b = blk.get_unchecked_mut(kp + off1);
+                                *b = b.wrapping_add(log);
+                            }
+                            {
+                                let b = blk.get_unchecked_mut(kp + off2);
+                                *b = b.wrapping_add(log);
+                            }
+                            {
+                                let b = blk.get_unchecked_mut(kp + p + off1);
+                                *b = b.wrapping_add(log);
+                            }
+                            {
+                                let b = blk.get_unchecked_mut(kp + p + off2);
+                                *b = b.wrapping_add(log);
+                            }
                             kp += 2 * p;
                         }
                         off1 += kp;
@@ -423,14 +435,20 @@ impl<'a> Sieve<'a> {
                     // Update state.
                     if off1 != OFFSET_NONE as usize {
                         while off1 < len {
-                            *blk.get_unchecked_mut(off1) += log;
+                            {
+                                let b = blk.get_unchecked_mut(off1);
+                                *b = b.wrapping_add(log);
+                            }
                             off1 += p as usize;
                         }
                         *lo.get_unchecked_mut(2 * i) = (off1 % BLOCK_SIZE) as u16;
                     }
                     if off2 != OFFSET_NONE as usize {
                         while off2 < len {
-                            *blk.get_unchecked_mut(off2) += log;
+                            {
+                                let b = blk.get_unchecked_mut(off2);
+                                *b = b.wrapping_add(log);
+                            }
                             off2 += p as usize;
                         }
                         *lo.get_unchecked_mut(2 * i + 1) = (off2 % BLOCK_SIZE) as u16;
@@ -455,7 +473,10 @@ impl<'a> Sieve<'a> {
                     }
                     let log = log as u8;
                     while off < len {
-                        *blk.get_unchecked_mut(off) += log;
+                        {
+                            let b = blk.get_unchecked_mut(off);
+                            *b = b.wrapping_add(log);
+                        }
                         off += p as usize;
                     }
                     *lo.get_unchecked_mut(i) = (off % BLOCK_SIZE) as u16;
@@ -492,7 +513,10 @@ impl<'a> Sieve<'a> {
                     for &entry in t.get_unchecked(bidx * BUCKET_SIZE..bidx * BUCKET_SIZE + blen) {
                         let (boff, _) = std::mem::transmute::<u16, (u8, u8)>(entry);
                         let off = base_off + boff as usize;
-                        *blk.get_unchecked_mut(off) += logp;
+                        {
+                            let b = blk.get_unchecked_mut(off);
+                            *b = b.wrapping_add(logp);
+                        }
                     }
                 }
             }
@@ -506,7 +530,10 @@ impl<'a> Sieve<'a> {
                 unsafe {
                     for &entry in t.bucket_offsets(bno) {
                         let (boff, _) = std::mem::transmute::<u32, (u16, u16)>(entry);
-                        *blk.get_unchecked_mut(boff as usize) += logp;
+                        {
+                            let b = blk.get_unchecked_mut(boff as usize);
+                            *b = b.wrapping_add(logp);
+                        }
                     }
                 }
             }
@@ -594,7 +621,8 @@ impl<'a> Sieve<'a> {
                             let imod = pdiv.modu16(ij);
                             if imod == off1 || imod == off2 {
                                 let log = 32 - u32::leading_zeros(pp) as u8;
-                                t += log;
+                                // A byte close to 255 only needs to stay above the threshold.
+                                t = t.saturating_add(log);
                             }
                         }
                         // Compensate for distance to root.
@@ -604,7 +632,7 @@ impl<'a> Sieve<'a> {
                             let dist = (x.abs() - r as i32).abs();
                             let zeros = u32::leading_zeros(dist as u32);
                             if zeros > mzeros {
-                                t += (zeros - mzeros) as u8;
+                                t = t.saturating_add((zeros - mzeros) as u8);
                             }
                         }
                         // Now apply requested threshold.
